@@ -19,6 +19,7 @@ def templates(tier, seed):
             ts.append(Template(f"raise_warning_scalar_lazy/{pred}/N={N}", t_opt, ("raise_warning", N, dict(pred=pred, scalar=True, lazy=True))))
             ts.append(Template(f"ignore_na_field/{pred}/N={N}", t_opt, ("ignore_na_field", N, dict(pred=pred))))
         ts.append(Template(f"alias/N={N}", t_opt, ("alias", N, {})))
+        ts.append(Template(f"n_failure_cases_frame/N={N}", t_opt, ("n_failure_cases_frame", N, {})))
         # nullable integer extension dtype: ignore_na must hide <NA> like any other null
         ts.append(Template(f"ignore_na_field/Int64/gt/N={N}", t_opt, ("ignore_na_field", N, dict(pred="gt", kind="Int"))))
         ts.append(Template(f"element_wise/Int64/gt/ina=1/N={N}", t_opt, ("element_wise", N, dict(pred="gt", ina=True, kind="Int"))))
